@@ -823,8 +823,9 @@ func (p *Pager) RunRollbackTx(prev *Image, tx Tx, jm JournalMode, outcome Rollba
 			}
 			p.Rec.Write(pg, prev.Pages[pg-1])
 		}
-		// pages appended by the aborted tx are cut off by SQLite with a truncate to the original size
-		if (tx.NewSize > uint32(len(prev.Pages)) || maxWritten > uint32(len(prev.Pages))) && len(prev.Pages) > 0 {
+		// pages appended by the aborted tx are cut off by SQLite with a truncate to the original size (pager_playback:
+		// also to nothing, when the transaction was the one creating the database)
+		if tx.NewSize > uint32(len(prev.Pages)) || maxWritten > uint32(len(prev.Pages)) {
 			if err := db.TruncateDatabase(ctx, int64(len(prev.Pages))*int64(ps)); err != nil {
 				unlockAll()
 				return fmt.Errorf("rollback truncate: %w", err)
@@ -849,7 +850,7 @@ func (p *Pager) RunRollbackTx(prev *Image, tx Tx, jm JournalMode, outcome Rollba
 				_ = db.WriteDatabaseAt(ctx, dbf, prev.Pages[pg-1], int64(pg-1)*int64(ps), o)
 				p.Rec.Write(pg, prev.Pages[pg-1])
 			}
-			if (tx.NewSize > uint32(len(prev.Pages)) || maxWritten > uint32(len(prev.Pages))) && len(prev.Pages) > 0 {
+			if tx.NewSize > uint32(len(prev.Pages)) || maxWritten > uint32(len(prev.Pages)) {
 				_ = db.TruncateDatabase(ctx, int64(len(prev.Pages))*int64(ps))
 				p.Rec.Truncate(uint32(len(prev.Pages)))
 			}
